@@ -487,6 +487,21 @@ func c09Registers(r *Run) {
 			}
 		}
 	}
+	// the outer item used again inside a subscript / argument that follows a nested filter in the same operand
+	for _, inner := range []*Expr{sFilter(eCmp(">", eCur(), eInt(0))), sFilter(eExists(eCur())), sFilter(eCmp("==", eCur(sKey("ok")), eTrue()))} {
+		for _, tail := range [][]*Expr{{sIndex(sub1(eCur(sKey("i"))))}, {sKey("t"), sIndex(sub1(eCur(sKey("i"))))}, {sIndex(subR(eInt(0), eCur(sKey("i"))))}, {sFilter(eCmp("==", eCur(), eInt(6))), sIndex(sub1(eCur(sKey("i"))))}} {
+			for _, head := range [][]*Expr{{sKey("a")}, {sKey("a"), sAnyArray()}} {
+				op := eCur(append(append(append([]*Expr{}, head...), inner), tail...)...)
+				for _, pf := range []*Expr{eRoot(sAnyArray()), eRoot()} {
+					es = append(es, pf.withSteps(sFilter(eCmp("==", op, eInt(6)))), pf.withSteps(sFilter(eExists(op))), pf.withSteps(sFilter(eCmp("==", eCur(sKey("i")), op))),
+						pf.withSteps(sFilter(eAnd(eExists(op), eCmp(">=", eCur(sKey("i")), eInt(0))))))
+				}
+			}
+		}
+	}
+	for _, d := range []string{`[{"a":[5,6],"i":1},{"a":[7,6],"i":0}]`, `{"a":[5,6],"i":1}`, `[{"a":[[5,6]],"i":1},{"a":[{"ok":true,"t":[6,7]}],"i":0}]`, `{"a":[{"ok":true,"t":[5,6]},{"ok":false,"t":[6]}],"i":1}`, `[{"a":[6],"i":0},{"a":[0,6],"i":1}]`} {
+		vals = append(vals, mustDoc(d, "float64"))
+	}
 	es = append(es, lastAfterFailingSubscript()...)
 	vals = append(vals, mustDoc(`[[1,2],5,6,7]`, "float64"), mustDoc(`[[1,2,3],5]`, "float64"), mustDoc(`[[0],5,6]`, "float64"))
 	r.Bound("register_paths", 2*len(es))
